@@ -1211,7 +1211,53 @@ def r_callback_wiring(ctx):
             ctx.violation('Transport.%s:callback-never-invoked' % st.name, st.loc(), 'the callback stored by %s (self.%s) is never called: the event is silently lost '
                           '(the node is never told, e.g., that a read-only peer left)' % (st.name, attr), instance=inst)
     ctx.require(n >= 4, 'transport callback setters not found')
-    ctx.expect_min(4)
+    # every connection object the TCP transport starts to use is watched: wherever it binds a message callback on a
+    # connection for the first time (a connection it created, or one the server handed over) it also binds its disconnect handler
+    T = transport_parts(ctx)
+    od = T.roles['on_disc']
+    # accept handlers: methods handed to the TcpServer constructor
+    accept_handlers = set()
+    for m in P.methods_of(T):
+        for c in P.calls_in(m):
+            if unparse(c.func).endswith('TcpServer'):
+                for a in list(c.args) + [k.value for k in c.keywords]:
+                    nm = P.self_attr(a, m.self_name)
+                    if nm and nm in T.methods and len(T.methods[nm].params) == 2:
+                        accept_handlers.add(nm)
+    for m in P.methods_of(T):
+        binds_msg = {}
+        binds_disc = set()
+        created = set()
+        for x in ast.walk(m.node):
+            if isinstance(x, ast.Assign) and isinstance(x.value, ast.Call) and unparse(x.value.func) == 'TcpConnection' and isinstance(x.targets[0], ast.Name):
+                created.add(x.targets[0].id)
+        for c in P.calls_in(m):
+            if isinstance(c.func, ast.Attribute) and isinstance(c.func.value, ast.Name) and c.args:
+                if c.func.attr == 'setOnMessageReceivedCallback':
+                    binds_msg[c.func.value.id] = c
+                elif c.func.attr == 'setOnDisconnectedCallback':
+                    a = c.args[0]
+                    if isinstance(a, ast.Call) and unparse(a.func).endswith('partial') and a.args:
+                        a = a.args[0]
+                    if P.self_attr(a, m.self_name) == od.name:
+                        binds_disc.add(c.func.value.id)
+        # "first use": the connection was created here, or it is the parameter of the accept callback (a method that is itself
+        # registered as a callback and not a message handler)
+        first_use = set(created)
+        if len(m.params) == 2 and m.params[1] in binds_msg and m.name in accept_handlers:
+            first_use.add(m.params[1])
+        for v in sorted(first_use):
+            if v not in binds_msg:
+                continue
+            inst = '%s: connection `%s` gets the transport\'s disconnect handler' % (m.qualname, v)
+            ctx.tick()
+            if v in binds_disc:
+                ctx.ok(inst, m.loc(binds_msg[v]), 'setOnDisconnectedCallback(self.%s ..)' % od.name)
+            else:
+                ctx.violation('%s:connection-not-watched' % m.qualname, m.loc(binds_msg[v]),
+                              'the transport starts using connection `%s` without binding its disconnect handler: when this connection dies the node is never reported '
+                              'disconnected and is not re-dialled at once' % v, instance=inst)
+    ctx.expect_min(6)
 
 
 @rule('R-enumeration-siblings', 'the object\'s own replicated methods and those of every consumer are selected for id assignment by '
